@@ -5,6 +5,7 @@
   per-request fault plan | external write, i.e. every interleaving of the two clients' operation lists.
 -/
 import Basyx.Lemmas.Couch
+import Basyx.Gen.Backends
 namespace Basyx.Couch
 open Basyx
 
@@ -1511,5 +1512,15 @@ example :
 -- map refinement hypotheses: present / missing documents
 example : abs (run init staleHist) idA = some 0 ∧ abs (run init staleHist) idSlash = none := by decide
 
+
+/-! ### The document name is `quote(identifier, safe='')`
+
+`c16_quote_injective` / `c16_quote_roundtrip` are about `quote` with NO character exempt from escaping besides the unreserved ones.
+That every `urllib.parse.quote` call of couchdb.py passes `safe=''` (the store builds document names in three places) and that
+`_transform_id` has the modelled shape is regenerated from the source (`Gen/Backends.lean`). -/
+
+theorem c16_document_name_quotes_everything :
+    Gen.Backends.couchQuoteSafe.all (· == "") = true ∧ Gen.Backends.couchQuoteSafe.length = 3 ∧ Gen.Backends.unrecognised = [] := by
+  decide
 
 end Basyx.Couch
